@@ -9,7 +9,7 @@ ENGINES = [
          kind_free_text="explicit-state BFS / exhaustive configuration enumeration over the real Timer, Btdmp, Dma+Ahbm objects with lock-step reference models"),
     dict(name="sys", path="engines/sys", serves_properties=["C06", "C07", "C11", "C12", "C14", "C17"],
          kind_free_text="explicit-state BFS over the whole Teakra facade (host API + DSP-side MMIO) with snapshot/restore of the plain state and lock-step reference models"),
-    dict(name="isa", path="engines/isa", serves_properties=["C01", "C03", "C04"],
+    dict(name="isa", path="engines/isa", serves_properties=["C01", "C03", "C04", "C08", "C09"],
          kind_free_text="single-instruction enumerator over all 65536 opcodes x bounded state alphabet; two glue libraries (implementation vs frozen reference) behind a C ABI; decode introspection through a generated recording visitor; harness-owned choice engine inside the real test generator"),
 ]
 
@@ -35,6 +35,14 @@ CLAIMED = {
             "Two layers: all event sequences up to the depth bound over the full alphabet (trigger, acknowledge and routing of every subset of an IRQ triple, ie/im/imv/ic/cpc writes, instruction boundaries of a fixed program with reti/retic/staying handlers and a rep main line), and the complete reachable state set of fixed routing/mask configurations over trigger/acknowledge/ie/step. After every event the projected real state (request, routing, latches, ip/im/ie, pc, sp, stack words, repeat state, banked im) must equal the model's, which encodes exactly-once delivery, priority, masking, rep blocking, pushed return address and acknowledge semantics. Plus the finite wiring check of the nine peripheral sources.",
             "Trusted: the 150-line reference model (incl. a 5-instruction interpreter for the fixed program), snapshot/restore of registers/ICU/latches, g++. Nesting bounded at 2; IRQ alphabets of three indices per run (all 16 indices appear across runs).",
             "DESIGN.md section 4, C07"),
+    "C08": ("isa", "exhaustive enumeration of round-trip program pairs (every push/pop operand, call/return form x condition x word order, interrupt entry/exit, context and bank exchanges) x state alphabet on the real interpreter, metamorphic identities as oracle",
+            "Every pushable/poppable operand encoding, every call form with all 16 conditions, both program-counter word orders, three stack positions, every interrupt line with and without context switching and all 64 bank-exchange flag sets are executed from ~1500 states (bases and every 1-field deviation incl. the hidden banks); the identity 'the round trip restores sp, pc, the operand and every other register' is checked field by field, so no reference is needed and defects already present at the pinned commit would show.",
+            "Trusted: the hand-assembled opcodes in engines/isa/c08_stack.h, isa_spec.h, g++. Preconditions as in the statement (saturation disabled, no loop active, product shift 0, 33rd product bit consistent).",
+            "DESIGN.md section 4, C08"),
+    "C09": ("isa", "exhaustive enumeration of a generated loop-program family (counts, bodies, nesting shapes up to depth 4, register/immediate counts, store/restore of frames) on the real interpreter, each compared with its unrolled program (program-pair equivalence)",
+            "Every program of the family (rep with counts 0..8,255,256(,65535) x 12 bodies; bkrep with all 1-3 instruction bodies x counts 0..3, two-word last instruction, every nesting shape to depth 4 with counts in {0,1,2}, rep inside blocks incl. as last instruction, break, frame store/restore at depth 0-4) is executed and compared with its straight-line unrolling on the same interpreter; equality is over the whole register file except the loop-control registers plus the multiset of memory writes; the visible counter sequence and the cleared loop state are checked explicitly.",
+            "Trusted: the program generator/unroller (60 lines), hand-assembled opcodes, g++. Each nesting level ends at its own address (precondition recorded in DESIGN).",
+            "DESIGN.md section 4, C09"),
     "C11": ("sys", "exhaustive enumeration of all 2^18 memory words x all views (host accessors, raw bytes, instruction fetch, 13 guest load/store forms, movp/movd) and of all MMIO window bases x boundary offsets on the real machine, memory observer as write oracle",
             "The memory is small enough to visit every word through every view, for both banks and both memory-ownership modes, so the address arithmetic of the statement is decided completely rather than at sampled addresses; every window base k*0x200 (and off-grid bases) is checked at both edges for register-vs-memory routing, with the memory observer proving that no write reaches the cell underneath.",
             "Trusted: hand-assembled opcodes of the load/store forms, the memory-observer hook, g++. Default paging mode only.",
